@@ -1,4 +1,5 @@
 import GV.Model.Vrf
+import GV.Model.VrfSym
 import GV.Gen.VrfFacts
 import GV.Gen.VrfConsts
 /-!
@@ -105,16 +106,67 @@ theorem verify_recomputes_commitments (hL : Laws P) (sk : Sk) (alpha : Msg) :
   rw [recompute P hL, recompute P hL]
   exact ⟨rfl, rfl, rfl⟩
 
+/-! ### what can be proved of output uniqueness
+
+Coordinates: over two independent generators B, H a point is `a·B + b·H`; the key is `Y = x·B`,
+a proof's `Gamma = gB·B + gH·H`, and the verifier's recomputed commitments are
+`U = (s − c·x)·B`,  `V = (−c·gB)·B + (s − c·gH)·H`. -/
+
+/-- **At most one challenge fits a hash input.**  If `Gamma ≠ x·H` (in coordinates: `gB ≠ 0` or
+    `gH ≠ x`), then for a fixed hash input `(H, Gamma, U, V)` — i.e. fixed coordinates `u` of `U`
+    and `vB, vH` of `V` — at most one challenge `c` satisfies the verification equations, whatever
+    response `s` goes with it.  So a proof with a non-genuine `Gamma` is accepted only if the hash
+    of the input happens to equal that one predetermined value: this is the algebraic core of the
+    VRF's uniqueness (the rest is the random-oracle assumption on `hashPoints`, not provable
+    here).  Stated over the integers as the scalar domain (any integral domain would do). -/
+theorem challenge_determined (x gB gH u vB vH s c s' c' : Int)
+    (hne : gB ≠ 0 ∨ gH ≠ x)
+    (h1 : s - c * x = u) (h2 : -(c * gB) = vB) (h3 : s - c * gH = vH)
+    (h1' : s' - c' * x = u) (h2' : -(c' * gB) = vB) (h3' : s' - c' * gH = vH) :
+    c = c' := by
+  rcases hne with hb | hh
+  · have : c * gB = c' * gB := by omega
+    exact Int.eq_of_mul_eq_mul_right hb this
+  · have hd : gH - x ≠ 0 := by omega
+    have e : c * (gH - x) = c' * (gH - x) := by
+      have a1 : c * (gH - x) = c * gH - c * x := Int.mul_sub c gH x
+      have a2 : c' * (gH - x) = c' * gH - c' * x := Int.mul_sub c' gH x
+      omega
+    exact Int.eq_of_mul_eq_mul_right hd e
+
+/-- Conversely a genuine `Gamma = x·H` leaves the challenge free: every `c` fits, with
+    `s = k + c·x` (this is `verify_any_nonce` in coordinates). -/
+theorem genuine_gamma_any_challenge (x k c : Int) :
+    (k + c * x) - c * x = k ∧ -(c * 0) = 0 ∧ (k + c * x) - c * x = k := by
+  refine ⟨by omega, by simp, by omega⟩
+
+/-- **Output modulo torsion.**  The output hashes `cofactor·Gamma`; with the law that adding a
+    torsion point does not change it (`hout`), every accepted proof whose `Gamma` is the genuine
+    `x·H` plus a torsion point yields exactly the prover's output — the key holder's proofs with a
+    small-order component in `Gamma` (which do verify, see the `gammaT` ops) cannot change the
+    output. -/
+theorem accepted_output_mod_torsion [DecidableEq S] (isTorsion : G → Prop)
+    (hout : ∀ g t, isTorsion t → P.outHash (P.add g t) = P.outHash g)
+    (sk : Sk) (alpha : Msg) (pi : Proof G S) (t : G) (o : Out) (ht : isTorsion t)
+    (hg : pi.gamma = P.add (P.smul (P.scalarOf sk) (P.h2c (pkOf P sk) alpha)) t)
+    (h : verifyAndHash P (pkOf P sk) pi alpha = .ok o) :
+    o = (prove P sk alpha).2 := by
+  rw [accepted_output P _ pi alpha o h, hg, hout _ _ ht]
+  rfl
+
 /-- The full statement (kept, not proved): besides completeness, every accepted proof carries the
-    genuine `Gamma = x·H`, hence the genuine output ("full uniqueness" of the VRF) — so no
-    change of proof, message or key can yield an accepted different output.  Not derivable from the
-    module laws: it is the soundness of the scheme (discrete-log independence of B and H, random
-    oracle `hashPoints`).  Byte-level "any flipped bit fails" is weaker-and-stronger than this
-    (see `verify_any_nonce`: other valid proofs exist) and is only tested. -/
-def C38_full [DecidableEq S] : Prop :=
+    genuine `Gamma = x·H` up to a torsion point, hence (`accepted_output_mod_torsion`) the genuine
+    output — so no change of proof, message or key can yield an accepted different output.  Not
+    derivable from the module laws: by `challenge_determined` it holds unless the hash of the
+    verifier's input equals one predetermined value, which is an assumption on `hashPoints`
+    (random oracle) and on the independence of B and H (discrete logarithm).  Byte-level "any
+    flipped bit fails" is not this statement (other valid proofs exist: `verify_any_nonce`, the
+    `gammaT` ops) and is only tested. -/
+def C38_full [DecidableEq S] (isTorsion : G → Prop) : Prop :=
   ∀ sk alpha, P.smallOrder (pkOf P sk) = false →
     verifyAndHash P (pkOf P sk) (prove P sk alpha).1 alpha = .ok (prove P sk alpha).2 ∧
-    ∀ pi o, verifyAndHash P (pkOf P sk) pi alpha = .ok o → o = (prove P sk alpha).2
+    ∀ pi o, verifyAndHash P (pkOf P sk) pi alpha = .ok o →
+      ∃ t, isTorsion t ∧ pi.gamma = P.add (P.smul (P.scalarOf sk) (P.h2c (pkOf P sk) alpha)) t
 
 /-- what is proved of it -/
 theorem C38_partial [DecidableEq S] (hL : Laws P) :
@@ -149,5 +201,13 @@ example : Laws toy where
 
 example : (match verifyAndHash toy (pkOf toy 4) (prove toy 4 11).1 11 with
     | .ok o => o == (prove toy 4 11).2 | .error _ => false) = true := by decide
+
+/-- the free-module instance used by the driver satisfies `hout`, and on it the crafted proof with
+    `Gamma = x·H + T_3` and challenge residue 5 verifies with the genuine output -/
+example : (GV.Model.VrfSym.symT 3 5).outHash
+      (GV.Model.VrfSym.Pt.add (GV.Model.VrfSym.Pt.smul GV.Model.VrfSym.X GV.Model.VrfSym.ptH)
+        (GV.Model.VrfSym.ptT 3)) =
+    (GV.Model.VrfSym.symT 3 5).outHash (GV.Model.VrfSym.Pt.smul GV.Model.VrfSym.X GV.Model.VrfSym.ptH) := by
+  decide
 
 end GV.Props.C38
